@@ -133,7 +133,8 @@ fn names() -> Vec<String> {
 }
 
 fn prefix_part(res: &mut PartResult, states: &mut vseq::States) {
-    for prefix in ["", "p", "a.b", "é"] {
+    // the prefix is used as written: one that ends in the separator, is the separator, or contains blanks is no exception
+    for prefix in ["", "p", "a.b", "é", "p.", ".", "p..", " p ", ".p"] {
         let log: Log = Default::default();
         let rec = PrefixLayer::new(prefix).layer(LogRec { id: 0, log: log.clone() });
         for name in names() {
@@ -439,7 +440,7 @@ fn main() {
     driver::main(CheckDef {
         prop: "C13",
         level: "model_checking",
-        rule: "names = all strings of length <= 4 over {a,b,.,A} plus {\"\", é, aé, p.a}; for each name and kind the describe, register and every handle operation is driven through: the prefix layer (4 prefixes), the filter layer (all ordered pattern lists of <= 2 over {\"\",a,ab,B,é}, handed over at once, one by one through add_pattern, or mixed, x case-insensitive x DFA, each layer object used a second time after its options were flipped), the router (all ordered route tables of <= 3 (thorough 5) routes over 6 patterns x 4 kind masks, incl. duplicates and overlaps), the fanout (width 0-3) and all stacks of <= 3 layers from {Prefix p, Prefix q.r, Filter a, Filter p.} in every order; logging doubles record exactly what reached which recorder, compared with a reference written from the docs; distinct = distinct (owner / filtered / log shape) outcomes",
+        rule: "names = all strings of length <= 4 over {a,b,.,A} plus {\"\", é, aé, p.a}; for each name and kind the describe, register and every handle operation is driven through: the prefix layer (9 prefixes incl. ones ending in / consisting of the separator), the filter layer (all ordered pattern lists of <= 2 over {\"\",a,ab,B,é}, handed over at once, one by one through add_pattern, or mixed, x case-insensitive x DFA, each layer object used a second time after its options were flipped), the router (all ordered route tables of <= 3 (thorough 5) routes over 6 patterns x 4 kind masks, incl. duplicates and overlaps), the fanout (width 0-3) and all stacks of <= 3 layers from {Prefix p, Prefix q.r, Filter a, Filter p.} in every order; logging doubles record exactly what reached which recorder, compared with a reference written from the docs; distinct = distinct (owner / filtered / log shape) outcomes",
         assumptions: &["ASCII case folding for case-insensitive filters (as aho-corasick documents)", "with duplicated routes either owner is accepted, but exactly one"],
         parts,
         run,
